@@ -65,6 +65,9 @@ DevLimit == {"CreateAtLimit"}
 DevNoRemove == {"ForgetRemove"}
 DevNoPass == {"NoPassOnLeave"}
 DevKeep == {"KeepaliveCountsAll"}
+DevStale == {"SurplusCountsStale"}
+\* a stale idle connection next to a healthy one: keep-alive limit 1 of 2, expiry 1
+CfgsK2 == {Cfg(OrgABA, 2, 1, 1, TOnone, {}, {})}
 DevFresh == {"AbandonAssignedFresh"}
 DevTO == {"TimeoutAfterAssign"}
 DevGate == {"CancelAtGateLeavesNew"}
